@@ -622,6 +622,8 @@ class C01Oracle(Oracle):
             op["node"] = _unused_node_id(w, rnd)
             op["pixels"] = None
             if tr.segmentation is not None:
+                if op["node"] > int(np.iinfo(tr.segmentation.dtype).max):
+                    return None  # the label image cannot hold this id (precondition of painting it)
                 m = _background_box(w, rnd, t)
                 if m is None:
                     return None
